@@ -4,3 +4,5 @@ import MtailVerif.Props.C17
 #print axioms MtailVerif.C17.data_delivers_own_lines
 #print axioms MtailVerif.C17.close_delivers_tail_once
 #print axioms MtailVerif.C17.output_closes_after_cancel
+#print axioms MtailVerif.C17.streams_skeletons
+#print axioms MtailVerif.C17.dispatch_skeletons
